@@ -27,7 +27,7 @@ RULE = (
     "of that helper) still loading with the stock unpickler to the input target's value, or to 2 "
     "with --replace-result; target == k => "
     "non-zero exit and empty stdout. Decompile: stdout compiles as one module that assigns "
-    "result0..result{k-1} exactly once each, in order; no _var name assigned for one pickle is "
+    "result0..result{k-1} exactly once each, in order; no variable (any assigned name other than the results) assigned for one pickle is "
     "assigned or read for another; executed over inert stubs each result_i canonicalises equal to "
     "the reference VM's value for pickle i. Non-trivial = k >= 2 with an inner target, or a "
     "decompiled stack in which >= 2 pickles create variables; distinct = distinct (stack, options)."
@@ -81,11 +81,19 @@ def run_cli(argv, stdin_bytes=None):
         sys.stdin, sys.stdout, sys.stderr = old
 
 
-def lib_inject(part, run_last, replace):
+# injected expressions: also ones that are nothing but a numeric literal
+CODES = ("1+1", "12345", "1.5", "1e3", "'x'", "None", "0x10", "-7", "inf if False else 3")
+
+
+def code_for(parts):
+    return CODES[sum(len(p) for p in parts) % len(CODES)]
+
+
+def lib_inject(part, run_last, replace, code="1+1"):
     from fickling.fickle import Pickled
 
     p = Pickled.load(part)
-    p.insert_python_eval("1+1", run_first=not run_last, use_output_as_unpickle_result=replace)
+    p.insert_python_eval(code, run_first=not run_last, use_output_as_unpickle_result=replace)
     return p.dumps()
 
 
@@ -101,10 +109,11 @@ def check_inject(parts, target, run_last, replace, via_stdin, scratch, subproces
             "replace": replace, "stdin": via_stdin, "subprocess": subprocess_mode}  # fmt: skip
     try:
         split_stack(data)  # only to learn whether fickling can parse these inputs at all
-        want = lib_inject(parts[target], run_last, replace) if target < len(parts) else None
+        code = code_for(parts)
+        want = lib_inject(parts[target], run_last, replace, code) if target < len(parts) else None
     except Exception:  # noqa: BLE001 - fickling cannot model these inputs: outside the domain
         return None
-    argv = ["--inject", "1+1", "--inject-target", str(target)]
+    argv = ["--inject", code, "--inject-target", str(target)]
     if run_last:
         argv.append("--run-last")
     if replace:
@@ -125,7 +134,7 @@ def check_inject(parts, target, run_last, replace, via_stdin, scratch, subproces
         rc, out, _err = run_cli(argv, data if via_stdin else None)
 
     def fail(msg):
-        return Failure(case, f"--inject-target {target} on a stack of {len(parts)} (run_last={run_last}, replace={replace}, stdin={via_stdin}): {msg}")
+        return Failure(case, f"--inject {code!r} --inject-target {target} on a stack of {len(parts)} (run_last={run_last}, replace={replace}, stdin={via_stdin}): {msg}")
 
     k = len(parts)
     if target >= k:
@@ -151,6 +160,9 @@ def check_inject(parts, target, run_last, replace, via_stdin, scratch, subproces
         return fail("the target pickle differs from the library-level injection with the same flags")
     # ... and "the injection applied" means what it says, independently of the library helper: the
     # emitted target still loads, to the original object (or to the injected call's value)
+    r0 = run_ref(parts[target])
+    if r0.ok and r0.stack_at_stop != ([], []):
+        return None  # the target leaves values below its result: the helpers' stack layout assumes it does not (as in C08)
     try:
         orig = pickle.loads(parts[target])
     except Exception:  # noqa: BLE001 - the input itself does not load: nothing to compare
@@ -160,8 +172,8 @@ def check_inject(parts, target, run_last, replace, via_stdin, scratch, subproces
     except Exception as e:  # noqa: BLE001
         return fail(f"the emitted target pickle no longer loads: {type(e).__name__}: {e}")
     if replace:
-        if new != 2:
-            return fail(f"--replace-result: the emitted target loads to {new!r}, not to the injected call's value 2")
+        if not values.deep_equal(new, eval(code)):
+            return fail(f"--replace-result: the emitted target loads to {new!r}, not to the value of the injected {code!r}")
     elif not _same(orig, new):
         return fail(f"the emitted target loads to {new!r} but the input's target loads to {orig!r}")
     return None
@@ -216,10 +228,10 @@ def check_decompile(parts, via_stdin, trace, scratch):
             targets = [t.id for t in stmt.targets if isinstance(t, ast.Name)]
         names_read = {n.id for n in ast.walk(stmt) if isinstance(n, ast.Name) and isinstance(n.ctx, ast.Load)}
         for n in names_read:
-            if re.fullmatch(r"_var\d+", n):
+            if not re.fullmatch(r"result\d*", n):
                 uses.setdefault(n, set()).add(seg)
         for t in targets:
-            if re.fullmatch(r"_var\d+", t):
+            if not re.fullmatch(r"result\d*", t):
                 if t in var_owner:
                     return fail(f"variable {t} is assigned twice (pickles {var_owner[t]} and {seg})")
                 var_owner[t] = seg
@@ -267,7 +279,9 @@ def _parts():
     # hand-assembled targets whose memo is written sparsely or twice at the same index
     odd_memo = st.sampled_from([b"]q\x00Nq\x000.", b"(lp1\nI1\nap1\n.", b"\x80\x02]q\x00(K\x01K\x02eq\x00.",
                                 b"\x80\x02}q\x05(K\x01]q\x05K\x02h\x05u.", b"\x80\x04\x8c\x01a\x94\x8c\x01b\x94q\x000h\x01\x86."])  # fmt: skip
-    return st.one_of(*([small] * 8), big, odd_memo)
+    # values left on the stack below the result at STOP (legal; only hand-built)
+    leftovers = st.sampled_from([b"K\x01K\x02.", b"(K\x01K\x02.", b"NN].", b"\x80\x02K\x05]q\x00."])
+    return st.one_of(*([small] * 8), big, odd_memo, leftovers)
 
 
 def _dumps(v, proto):
